@@ -47,6 +47,11 @@ CLAIMED = {
         "Unbounded theorems for every prime p and all polynomials: constructors, +, -, *, negate, shifts, pow, pow_mod, monic, diff, eval, compose_mod are canonical and equal mod p to schoolbook arithmetic; division with remainder (f = q g + r, deg r < deg g, uniqueness, no out-of-range access, zero divisor throws); gcd terminates and is the monic greatest common divisor; lcm partial. Factorisation/square-free results are covered by exact correspondence (mirrored random streams) and by driver oracles (product, monic, brute-force/Rabin irreducibility) only, not by theorems.",
         "Trusted: Coq kernel; extraction; hand transcription validated by correspondence; known finding (listed): modulus >= 2^64 truncated in the Frobenius code.",
         "7 (C23)"),
+    "C25": (
+        "Rocq proof over an executable model of CSRMatrix (p/j/x arrays with 32-bit indices and checked access: get, set, from_coo, sort/sum-duplicates, binop, transpose, conjugate, scale, diagonal, jacobian, matmat pass 1+2, is_canonical) + exact correspondence of the three arrays after every command",
+        "Unbounded theorems for any element type with a zero test (rows*cols < 2^31): get returns the dense entry; set keeps canonical format and performs exactly the dense update; after EVERY history of in-range set/get operations every step succeeds and equals the dense mirror; from_coo sums duplicates and is canonical; binop (add, sub, elementwise product), transpose, conjugate, scale rows/columns, diagonal, jacobian, matrix product (canonical result equal to the dense product) agree with dense semantics; is_canonical decides canonical format exactly. Tied by comparing p_, j_, x_ exactly after every command of generated programs (exhaustive small universes included) and by an independent dense mirror in the driver.",
+        "Trusted: Coq kernel; extraction; hand transcription validated by exact correspondence; the NotImplementedError methods and the csr-to-csr eq path are covered by correspondence only.",
+        "7 (C25)"),
     "C28": (
         "Rocq proof over an executable model of logic.cpp (and_or, logical_not/xor/nand/nor/xnor, piecewise, contains, relational constructors, subs on boolean trees; std::set order = modelled RCPBasicKeyLess) + exact correspondence of result trees",
         "Unbounded theorems: for every formula of the fragment (relationals over symbols and exact rationals, membership in intervals/finite sets, closed under Not/And/Or/Xor), every argument list (hence every iteration order) and every assignment of rationals to the symbols, logical_and/or/nand/nor/xor/xnor/not, piecewise construction, Contains simplification and substitution preserve the truth value. Tied by reproducing the library's result tree exactly (container order included) on generated formulas; a truth-table oracle complete up to order type runs on the library's own results.",
